@@ -14,6 +14,7 @@ from __future__ import annotations
 import re
 from collections.abc import Callable, Generator, Iterable
 from contextlib import contextmanager
+from fractions import Fraction
 from functools import partial
 from locale import LC_NUMERIC, getlocale, setlocale
 from typing import (
@@ -193,10 +194,16 @@ def formatter(
 
     """
 
+    def _builtin(x: Any) -> Any:
+        # Fraction does not implement the "n" presentation type used by exp_call
+        if isinstance(x, Fraction):
+            return x.numerator if x.denominator == 1 else float(x)
+        return x
+
     if as_ratio:
-        fun = lambda x: exp_call(abs(x))
+        fun = lambda x: exp_call(abs(_builtin(x)))
     else:
-        fun = exp_call
+        fun = lambda x: exp_call(_builtin(x))
 
     pos_terms: list[str] = []
     for key, value in numerator:
